@@ -46,6 +46,9 @@ def plan(seed, subbatch):
     else:
         faults, burst, p_empty, _ = planlib.swarm_faults(cfg, base_s, tf_s, halt_buckets=(5, 40))
     start = world.pick_start(cfg, base_s, tf_s)
+    env = planlib.dst_env(sub_rng(seed, "env"), n, base_s)
+    if env:
+        start = env[1]     # the stream straddles an offset change of the zone the process runs in
     regimes = None
     if subbatch == "faulty" and cfg.random() < 0.35:
         regimes = world.REGIMES_NORMAL + cfg.sample(world.REGIMES_DEGENERATE, 2)
@@ -66,7 +69,7 @@ def plan(seed, subbatch):
     if out[-1]["op"] != "check":
         out.append({"op": "check"})
     return {"format": 1, "property": ID, "seed": seed, "subbatch": subbatch,
-            "config": {"spec": spec, "base_s": base_s,
+            "config": {"process_tz": env[0] if env else None, "spec": spec, "base_s": base_s,
                        "utc_offset_min": cfg.choice((None, None, None, None, 0, 60, -210))},
             "ops": out, "fired": dict(fired)}
 
